@@ -151,6 +151,21 @@ def gen(c):
             put({"op": "is_on_curve", "P": i2b(P1[0]) + i2b((P1[1] + 1) % p)}, {"op": "is_on_curve", "expectbool": False})
             put({"op": "point_equ", "P": xy(P1), "Q": xy(P1), "lam": H(rng.randrange(2, p))}, {"op": "point_equ", "expectbool": True})
             put({"op": "point_equ", "P": xy(P1), "Q": xy(neg(P1)), "lam": H(rng.randrange(2, p))}, {"op": "point_equ", "expectbool": False})
+    # the point at infinity in both representations the library uses -- set_infinity's (1:1:0) and the (0:0:0) its own additions and multiplications return --
+    # as either operand of every point operation, and compared with finite points and with each other
+    for P1 in pts[:3]:
+        for zp, zq in ((1, 0), (0, 1)):
+            a_, b_ = (None, P1) if zp else (P1, None)
+            put({"op": "point_add", "P": xy(a_), "Q": xy(b_), "zinfP": zp, "zinfQ": zq, "lam": b""}, ptcase("point_add", a_, b_))
+            put({"op": "point_sub", "P": xy(a_), "Q": xy(b_), "zinfP": zp, "zinfQ": zq, "lam": b""}, ptcase("point_sub", a_, neg(b_) if b_ else None))
+            put({"op": "point_equ", "P": xy(a_), "Q": xy(b_), "zinfP": zp, "zinfQ": zq, "lam": b""}, {"op": "point_equ", "expectbool": False})
+            put({"op": "point_equ", "P": xy(a_), "Q": xy(b_), "lam": b""}, {"op": "point_equ", "expectbool": False})
+        put({"op": "point_add_affine", "P": b"", "Q": xy(P1), "zinfP": 1, "lam": b""}, ptcase("point_add_affine", None, P1))
+    for zp, zq in ((1, 1), (1, 0), (0, 1), (0, 0)):
+        put({"op": "point_equ", "P": b"", "Q": b"", "zinfP": zp, "zinfQ": zq, "lam": b""}, {"op": "point_equ", "expectbool": True})
+        put({"op": "point_add", "P": b"", "Q": b"", "zinfP": zp, "zinfQ": zq, "lam": b""}, ptcase("point_add", None, None))
+    put({"op": "point_dbl", "P": b"", "zinfP": 1, "lam": b""}, ptcase("point_dbl", None, None))
+    put({"op": "point_neg", "P": b"", "zinfP": 1, "lam": b""}, {"op": "point_neg", "x1": [], "y1": [], "inf1": True})
     # distinct points that share a coordinate: the same x (P and -P, above) and the same y -- for y^2 = x^3 - 3x + b the other two roots x' of the cubic solve
     # x'^2 + x x' + x^2 - 3 = 0; a comparison of the wrong coordinate in a "same point?" shortcut shows on these
     inv2 = pow(2, -1, p)
@@ -226,7 +241,7 @@ def run_variant(c, variant, lines, cases):
     jc, meta = [], []
     booth = {}
     for (line, evs, san), case in zip(res, cases):
-        key = "c13:%s:%s:%s" % (variant, case["op"], ":".join(short(line.get(k, "")) for k in ("a", "b", "e", "k", "t", "s", "P", "Q", "n", "w", "i") if line.get(k, "") not in ("", "-")))
+        key = "c13:%s:%s:%s" % (variant, case["op"], ":".join(short(line.get(k, "")) for k in ("a", "b", "e", "k", "t", "s", "P", "Q", "zinfP", "zinfQ", "n", "w", "i") if line.get(k, "") not in ("", "-")))
         c.count(1, key)
         if san or not evs:
             if case["op"] == "chain":
